@@ -90,7 +90,8 @@ func (g *markerGen) body(t *rapid.T) string {
 // digits is a unique digit string of n >= 13 digits that starts with first (no leading zero unless asked).
 func (g *markerGen) digits(t *rapid.T, first string, n int) string {
 	r := rapid.Uint64().Draw(t, "num")
-	s := fmt.Sprintf("%s%02d%020d", first, len(g.list)%100, r)
+	// the 7 after the index keeps one marker from being a substring of another when the random part shrinks to zeros
+	s := fmt.Sprintf("%s%02d7%020d", first, len(g.list)%100, r)
 	return s[:n]
 }
 
@@ -253,6 +254,7 @@ var (
 	reJSON   = regexp.MustCompile(`'\$(\.a|\[0\]|\.a\.b)'`)
 	reSep    = regexp.MustCompile(`(?i)(\bseparator\s+)('[^']*'|"[^"]*")`)
 	reIvl    = regexp.MustCompile(`(?i)(\binterval\s+)'[^']*'`)
+	reIvlArg = regexp.MustCompile(`(\binterval )(:replaced\d+)`)
 )
 
 // markRest puts markers at the literal positions sqlgen does not route through its Literal hook:
@@ -483,6 +485,8 @@ func genSource(t *rapid.T) string {
 type located struct {
 	Marker
 	holder string   // parser type of the literal holding the marker: str int float hexnum hexval bit pgesc separator, or "" (not found)
+	other  string   // kind of the statement when it is not one the walker knows (DDL, Show, ...)
+	raw    string   // the statement text, for statements of an other kind
 	cast   bool     // literal carries a ::cast
 	path   []string // context path
 }
@@ -504,14 +508,13 @@ func (l located) clause() string {
 			nest = "union/"
 		case p == "insert-select" && nest == "":
 			nest = "insert-select/"
-		case clauseNames[p]:
+		case p == "union-tail":
 			cl = p
-		}
-	}
-	if cl == "union-tail" {
-		for i := len(l.path) - 1; i >= 0; i-- {
-			if clauseNames[l.path[i]] && l.path[i] != "union-tail" {
-				return "union-tail/" + l.path[i]
+		case clauseNames[p]:
+			if cl == "union-tail" || strings.HasPrefix(cl, "union-tail/") {
+				cl = "union-tail/" + p
+			} else {
+				cl = p
 			}
 		}
 	}
@@ -594,6 +597,9 @@ func analyse(c Case) (p parsed) {
 		p.shape, w = shapeOf(pg, st)
 		p.unknown = w.unknown
 		for _, m := range c.Markers {
+			if m.Spell == "raw-text" {
+				continue // bare text of a garbage template that the parser happened to accept as an identifier: not a literal
+			}
 			l := located{Marker: m}
 			for _, li := range w.lits {
 				if m.in(li.val, strings.ToLower(li.val)) {
@@ -605,7 +611,10 @@ func analyse(c Case) (p parsed) {
 		}
 	} else {
 		for _, m := range c.Markers {
-			p.located = append(p.located, located{Marker: m})
+			if m.Spell == "raw-text" {
+				continue
+			}
+			p.located = append(p.located, located{Marker: m, other: p.kind, raw: strip(c.SQL)})
 		}
 	}
 	return p
@@ -658,15 +667,23 @@ func stmtClasses(c Case, p parsed) []string {
 	return cl
 }
 
-// leakSig names the class of a leaked marker: the sink and what kind of literal held it where.
-func leakSig(sink string, l located) string {
-	switch l.holder {
-	case "":
+// leakSig names the class of a leaked marker found in text: the sink and what kind of literal held it where.
+func leakSig(sink string, l located, text string) string {
+	bare := strings.TrimPrefix(strings.TrimPrefix(strings.TrimPrefix(l.clause(), "sub/"), "union/"), "insert-select/")
+	switch {
+	case l.other != "" && strings.Contains(text, l.raw):
+		// the statement as the client sent it, not a printed form of its tree
+		return "raw-statement-logged:" + sink
+	case l.other != "":
+		// statements other than data manipulation keep their literals in nodes the normaliser does not
+		// reach (column defaults of DDL, SHOW ... LIKE patterns): one class per statement kind, whatever the sink
+		return "leak:literal-in-" + l.other
+	case l.holder == "":
 		return "leak:" + sink + ":not-a-value-node"
-	case "separator":
-		return "leak:" + sink + ":group-concat-separator"
+	case l.holder == "separator":
+		return "leak:group-concat-separator"
 	}
-	return "leak:" + sink + ":" + l.holder + "@" + strings.TrimPrefix(strings.TrimPrefix(strings.TrimPrefix(l.clause(), "sub/"), "union/"), "insert-select/")
+	return "leak:" + sink + ":" + l.holder + "@" + bare
 }
 
 // findLeaks looks for every marker in text.
@@ -702,17 +719,22 @@ type redactInfo struct {
 func checkRedactedText(vs *hx.Vs, c Case, p parsed, what, red string) {
 	pg := c.Dialect == sqlgen.PostgreSQL
 	for _, l := range findLeaks(p.located, red) {
-		vs.Add(leakSig("redacted", l), "%s of %q (%s dialect) still shows the %s literal %s (%s, %s): %s", what, short(c.SQL), c.Dialect, l.Spell, l.Text, l.clause(), l.exprCtx(), short(red))
+		vs.Add(leakSig("redacted", l, red), "%s of %q (%s dialect) still shows the %s literal %s (%s, %s): %s", what, short(c.SQL), c.Dialect, l.Spell, l.Text, l.clause(), l.exprCtx(), short(red))
 	}
 	if p.shape == nil {
 		// not a statement the walker knows: redaction must at least be stable and keep the statement kind
-		st, err := strict.Parse(strip(red))
-		if err != nil {
-			vs.Add("redacted-not-reparsable:"+p.kind, "%s of %q no longer parses (%v): %s", what, short(c.SQL), err, short(red))
-		} else if k := stmtKind(st); k != p.kind {
-			vs.Add("redacted-kind-differs:"+p.kind, "%s of %q parses as %s: %s", what, short(c.SQL), k, short(red))
+		// (the printed form of DDL that was accepted in part need not parse again: no demand on it)
+		if st, err := strict.Parse(strip(red)); err == nil && st != nil {
+			if k := stmtKind(st); k != p.kind {
+				vs.Add("redacted-kind-differs:"+p.kind, "%s of %q parses as %s: %s", what, short(c.SQL), k, short(red))
+			}
 		}
 		return
+	}
+	if pg {
+		// acra's grammar accepts only a string after INTERVAL in the PostgreSQL dialect, so the placeholder
+		// the normaliser prints there is put back into a string before the redacted text is parsed again
+		red = reIvlArg.ReplaceAllString(red, "${1}'x'")
 	}
 	var st sqlparser.Statement
 	var err error
@@ -821,7 +843,7 @@ func checkEntries(vs *hx.Vs, sink string, entries []logEntry, p parsed, all []lo
 		for _, part := range e.parts() {
 			for _, l := range findLeaks(markers, part.text) {
 				if p.ok {
-					vs.Add(leakSig(sink, l), "log entry (%s, %s) shows the %s literal %s (%s, %s): %s", e.Level, part.where, l.Spell, l.Text, l.clause(), l.exprCtx(), short(part.text))
+					vs.Add(leakSig(sink, l, part.text), "log entry (%s, %s) shows the %s literal %s (%s, %s): %s", e.Level, part.where, l.Spell, l.Text, l.clause(), l.exprCtx(), short(part.text))
 				} else {
 					vs.Add("leak:"+sink+":unparsed-statement", "log entry (%s, %s) shows text of a statement the parser rejected (marker %s): %s", e.Level, part.where, l.Needle, short(part.text))
 				}
@@ -868,6 +890,9 @@ func TestReplay(t *testing.T) {
 		},
 		"TestSessionLogs": func(raw json.RawMessage) hx.Vs {
 			return decode(raw, func(c SessCase) hx.Vs { vs, _ := CheckSession(c); return vs })
+		},
+		"TestMySQLSessionLogs": func(raw json.RawMessage) hx.Vs {
+			return decode(raw, func(c SessCase) hx.Vs { vs, _ := CheckMySession(c); return vs })
 		},
 	})
 }
